@@ -3,6 +3,7 @@
 // IWYU pragma: friend "rlbox_.*\.hpp"
 
 #include <cstring>
+#include <limits>
 #include <type_traits>
 
 #include "rlbox_helpers.hpp"
@@ -243,7 +244,10 @@ tainted<T*, T_Sbx> copy_memory_or_grant_access(rlbox_sandbox<T_Sbx>& sandbox,
                 "copy_memory_or_grant_access not supported on this type as "
                 "there may be ABI differences");
 
-  // overflow ok
+  // The byte size must not wrap: the range check below would then look at a
+  // tiny range while the plugin is asked about num elements
+  detail::dynamic_check(num <= std::numeric_limits<size_t>::max() / sizeof(T),
+                        "Element count overflows the address space");
   size_t source_size = num * sizeof(T);
 
   // sandbox can grant access if it includes the following line
@@ -308,7 +312,10 @@ T* copy_memory_or_deny_access(rlbox_sandbox<T_Sbx>& sandbox,
                 "copy_memory_or_deny_access not supported on this type as "
                 "there may be ABI differences");
 
-  // overflow ok
+  // The byte size must not wrap: the range check below would then look at a
+  // tiny range while the plugin is asked about num elements
+  detail::dynamic_check(num <= std::numeric_limits<size_t>::max() / sizeof(T),
+                        "Element count overflows the address space");
   size_t source_size = num * sizeof(T);
 
   // sandbox can grant access if it includes the following line
